@@ -328,7 +328,7 @@ def run_history(roots: list, ops: list, numeric: bool = False) -> dict:  # noqa:
     for oi, op in enumerate(ops):
         kind = op["op"]
         ev = {"i": oi, "op": kind}
-        si = op.get("slot", 0) % len(slots)
+        si = (len(slots) - 1) if op.get("slot") == -1 else op.get("slot", 0) % len(slots)
         slot = slots[si]
         model = slot["model"]
         before = snapshot()
@@ -487,8 +487,18 @@ def run_history(roots: list, ops: list, numeric: bool = False) -> dict:  # noqa:
             names = sorted(s_.name for s_ in model.parameter_defaults if isinstance(s_, sp.Symbol))
             if names:
                 tmp = model.rename_symbols({names[op["pick"] % len(names)]: "zz_{transient}"})
-                del tmp
-                gc.collect()
+                tmp2 = tmp.rename_symbols({"zz_{transient}": "zz_{transient2}"})  # tmp was renamed *from*, too
+                del tmp2
+                del tmp  # freed last: the next object of its size is likely to take its address
+                if op.get("clone"):
+                    # at once, so that the clone has a good chance to be allocated where the temporary was
+                    import copy  # noqa: PLC0415
+                    import pickle  # noqa: PLC0415
+
+                    clone = pickle.loads(pickle.dumps(model)) if op["clone"] == "pickle" else copy.deepcopy(model)  # noqa: S301
+                    slots.append(dict(slot, model=clone, sources={k: list(v) for k, v in slot["sources"].items()},
+                                      depth=slot["depth"]))
+                    probes["clone"] = probes.get("clone", 0) + 1
         elif kind == "clone":
             # the same model through pickle or deepcopy: a new object with the same reference
             import copy  # noqa: PLC0415
